@@ -24,6 +24,9 @@ def load_copy(alias, cmod):
     if cmod is not None:
         pkg.c_common = cmod
     spec.loader.exec_module(pkg)
+    import warnings
+
+    warnings.simplefilter("ignore")  # the package re-enables DeprecationWarning on import
     want = "py_common" if cmod is None else None
     got = pkg.common
     if cmod is None and not got.__name__.endswith("py_common"):
